@@ -129,13 +129,42 @@ theorem dropped_rows_below {z : Zone} (hz : z.Truthful) {c h : Nat}
   intro r hr
   obtain ⟨h1, h2⟩ := hz r hr
   simp only [zoneKept, fileStale, dropZone, Option.getD_some, Bool.and_eq_false_iff,
-    Bool.not_eq_false', decide_eq_true_eq] at hk
-  omega
+    Bool.not_eq_false', decide_eq_true_eq, Snel.Gen.C14.staleSlack] at hk
+  rcases hk with hk | hk
+  · have := of_decide_eq_true hk; omega
+  · omega
+
+/-- **The segment-level early exit never drops more than the per-zone pruner**: when every zone
+of a segment satisfies the drop rule, each of them is dropped by the pruner anyway. Hence the
+zones read are exactly those the per-zone test keeps. -/
+theorem zoneRead_eq (guard : Option (Nat × Option Nat)) {all : List Zone} {z : Zone} (hz : z ∈ all) :
+    zoneRead guard all z = zoneKept guard z := by
+  cases guard with
+  | none => rfl
+  | some g =>
+    obtain ⟨c, h⟩ := g
+    simp only [zoneRead, zoneKept]
+    cases hd : dropZone c h z with
+    | true => simp
+    | false =>
+      have : segFullyMaterialized c h (all.filter (·.seg == z.seg)) = false := by
+        cases hs : segFullyMaterialized c h (all.filter (·.seg == z.seg)) with
+        | false => rfl
+        | true =>
+          simp only [segFullyMaterialized, Snel.Gen.C14.segmentGuardAllZones, if_true,
+            Bool.and_eq_true, all_eq_true] at hs
+          have := hs.2 z (mem_filter.mpr ⟨hz, by simp⟩)
+          rw [hd] at this; cases this
+      simp [this]
+
+theorem filter_zoneRead (guard : Option (Nat × Option Nat)) (zs : List Zone) :
+    zs.filter (zoneRead guard zs) = zs.filter (zoneKept guard) :=
+  filter_congr (fun _ hz => zoneRead_eq guard hz)
 
 theorem scan_none (s : Store) : scanRows s none = s.vis := by
   have : zoneKept none = fun _ => true := by funext z; rfl
   have h2 : s.zones.filter (fun _ => true) = s.zones := filter_eq_self.mpr (fun _ _ => rfl)
-  simp only [scanRows, Store.vis, this, h2]
+  simp only [scanRows, Store.vis, filter_zoneRead, this, h2]
 
 theorem runQuery_none (s : Store) (q : Spec) : runQuery s q none = s.vis.filter q.matches := by
   simp [runQuery, scan_none]
@@ -196,7 +225,7 @@ theorem delta_filter_eq {s : Store} (hs : s.Truthful) {e : Entry} (hm : MarkOk e
     (deltaQuery s e).filter (fun r => lexGt r.pos (sinkMark e.frames))
       = s.vis.filter (fun r => e.q.matches r && lexGt r.pos (sinkMark e.frames)) := by
   unfold deltaQuery runQuery scanRows Store.vis
-  rw [filter_filter]
+  rw [filter_zoneRead, filter_filter]
   have hpred : (fun r => lexGt r.pos (sinkMark e.frames) &&
         ({ e.q with since := deltaSince e.q.since e.mark } : Spec).matches r)
       = (fun r => e.q.matches r && lexGt r.pos (sinkMark e.frames)) := by
@@ -604,14 +633,46 @@ theorem second_show_keeps_nothing {s : St} (ht : s.store.Truthful) (hp : s.store
 
 /-! ## The concrete placement changes of the model are legitimate re-layouts -/
 
+theorem insertByCtx_perm (e : Ev) (l : List Ev) : (insertByCtx e l).Perm (e :: l) := by
+  induction l with
+  | nil => exact Perm.refl _
+  | cons x l ih =>
+    simp only [insertByCtx]
+    split
+    · exact Perm.refl _
+    · exact (Perm.cons x ih).trans (Perm.swap e x l)
+
+theorem sortByCtx_perm (l : List Ev) : (sortByCtx l).Perm l := by
+  induction l with
+  | nil => exact Perm.refl _
+  | cons e l ih => exact (insertByCtx_perm e _).trans (Perm.cons e ih)
+
+theorem zonesOf_rows (now c seg : Nat) (rows : List Ev) :
+    (zonesOf now c seg rows).flatMap (·.rows) = sortByCtx rows := by
+  unfold zonesOf
+  induction sortByCtx rows with
+  | nil => rfl
+  | cons r l ih => simp [ih]
+
+theorem zonesOf_truthful {now c seg : Nat} {rows : List Ev} (h : ∀ r ∈ rows, r.ts ≤ now + 1) :
+    ∀ z ∈ zonesOf now c seg rows, z.Truthful := by
+  intro z hz
+  simp only [zonesOf, mem_map] at hz
+  obtain ⟨r, hr, rfl⟩ := hz
+  intro r' hr'
+  simp only [mem_singleton] at hr'
+  subst hr'
+  exact ⟨Nat.le_refl _, h _ ((sortByCtx_perm rows).mem_iff.mp hr)⟩
+
 theorem vis_flush_perm (s : Store) (shard now : Nat) : (s.flush shard now).vis.Perm s.vis := by
   unfold Store.flush
   simp only
   split
   · exact Perm.refl _
-  · simp only [Store.vis, flatMap_append, flatMap_cons, flatMap_nil, append_nil, mkZone]
+  · simp only [Store.vis, flatMap_append, zonesOf_rows]
     have h := filter_append_perm (fun e : Ev => e.shard == shard) s.mem
     -- (kept ++ P) ++ (Z ++ moved)  ~  (moved ++ (kept ++ P)) ++ Z  ~  (mem ++ P) ++ Z
+    refine (Perm.append_left _ (Perm.append_left _ (sortByCtx_perm _))).trans ?_
     refine (perm_append_comm).trans ?_
     rw [append_assoc]
     refine (perm_append_comm).trans ?_
@@ -627,24 +688,21 @@ theorem flush_ok {s : Store} (hs : s.Truthful) (hp : s.passive = []) {shard now 
   split
   · exact hs
   · intro z hz
-    simp only [mem_append, mem_singleton] at hz
-    rcases hz with hz | rfl
+    rcases mem_append.mp hz with hz | hz
     · exact hs z hz
-    · intro r hr
-      simp only [mkZone] at hr ⊢
-      exact ⟨le_maxOf (mem_map.mpr ⟨r, hr, rfl⟩), hclock r (mem_filter.mp hr).1⟩
+    · exact zonesOf_truthful (fun r hr => hclock r (mem_filter.mp hr).1) z hz
 
 theorem vis_compact_perm (s : Store) (shard now : Nat) : (s.compact shard now).vis.Perm s.vis := by
   unfold Store.compact
   simp only
   split
   · exact Perm.refl _
-  · simp only [Store.vis, flatMap_append, flatMap_cons, flatMap_nil, append_nil]
+  · simp only [Store.vis, flatMap_append, zonesOf_rows]
     refine Perm.append_left _ ?_
     have h := filter_append_perm (fun z : Zone => z.ofShard shard) s.zones
     refine Perm.trans ?_ (h.flatMap_right (·.rows))
     rw [flatMap_append]
-    exact perm_append_comm
+    exact (Perm.append_left _ (sortByCtx_perm _)).trans perm_append_comm
 
 theorem compact_ok {s : Store} (hs : s.Truthful) (hp : s.passive = []) {shard now : Nat}
     (hclock : ∀ z ∈ s.zones, z.mtime ≤ now) : RelayoutOk s (s.compact shard now) := by
@@ -654,16 +712,15 @@ theorem compact_ok {s : Store} (hs : s.Truthful) (hp : s.passive = []) {shard no
   split
   · exact hs
   · intro z hz
-    simp only [mem_append, mem_singleton] at hz
-    rcases hz with hz | rfl
+    rcases mem_append.mp hz with hz | hz
     · exact hs z (mem_filter.mp hz).1
-    · intro r hr
-      simp only at hr ⊢
+    · refine zonesOf_truthful ?_ z hz
+      intro r hr
       obtain ⟨z0, hz0, hr0⟩ := mem_flatMap.mp hr
       have hz0' := (mem_filter.mp hz0).1
       have := (hs z0 hz0' r hr0).2
       have := hclock z0 hz0'
-      exact ⟨le_maxOf (mem_map.mpr ⟨r, hr, rfl⟩), by omega⟩
+      omega
 
 theorem backdate_ok {s : Store} (hs : s.Truthful) (hp : s.passive = []) :
     RelayoutOk s s.backdate := by
@@ -674,8 +731,10 @@ theorem backdate_ok {s : Store} (hs : s.Truthful) (hp : s.passive = []) :
     simp only [Store.backdate, mem_map] at hz
     obtain ⟨z0, hz0, rfl⟩ := hz
     intro r hr
-    have := (hs z0 hz0 r hr).1
-    exact ⟨this, by simp only; omega⟩
+    have h1 := (hs z0 hz0 r hr).1
+    have h2 : z0.tsMax ≤ maxOf ((s.zones.filter (·.seg == z0.seg)).map (·.tsMax)) :=
+      le_maxOf (mem_map.mpr ⟨z0, mem_filter.mpr ⟨hz0, by simp⟩, rfl⟩)
+    exact ⟨h1, by simp only; omega⟩
 
 /-! ## The AwaitFlush barrier -/
 
